@@ -39,11 +39,19 @@ def consts(repo, fails):
 def run(repo, gendir):
     fails = []
     gens = [consts(repo, fails)]
-    try:
-        import tr_more
-        gens += tr_more.run(repo, fails)
-    except ImportError:
-        pass
+    # every translator/tr_<name>.py module (except tr_util) contributes run(repo, fails) -> [Gen]
+    import glob
+    import importlib
+    here = os.path.dirname(os.path.abspath(__file__))
+    for path in sorted(glob.glob(os.path.join(here, "tr_*.py"))):
+        name = os.path.basename(path)[:-3]
+        if name == "tr_util":
+            continue
+        mod = importlib.import_module(name)
+        try:
+            gens += mod.run(repo, fails)
+        except Exception as ex:  # a crashing extractor is a broken tie, not a crash of the check
+            fails.append((name, "extractor crashed: %r" % (ex,)))
     for g in gens:
         g.write(gendir)
     return fails
